@@ -281,7 +281,8 @@ Qed.
 (* ================================================================ once objects *)
 Record wf (s : tst) : Prop := mkWf {
   wf_starter : forall o t t', In (o, t) (started s) -> In (o, t') (started s) -> t = t';
-  wf_completed : forall t o, In (t, o) (completed s) -> In o (finished s)
+  wf_completed : forall t o, In (t, o) (completed s) -> In o (finished s);
+  wf_finished : forall o, In o (finished s) -> exists t, In (o, t) (started s)
 }.
 
 Lemma wf0 : wf tst0.
@@ -289,24 +290,28 @@ Proof. split; simpl; intros; contradiction. Qed.
 
 Lemma step_wf s e s' : wf s -> step s e = Some s' -> wf s'.
 Proof.
-  intros [W1 W2]. destruct e as [t a]. destruct a; simpl; intros HS.
+  intros [W1 W2 W3]. destruct e as [t a]. destruct a; simpl; intros HS.
   - destruct (can_acq _ _ _); [|discriminate]. inversion HS; subst. split; simpl; auto.
   - destruct (remove1 _ _); [|discriminate]. inversion HS; subst. split; simpl; auto.
   - inversion HS; subst. split; auto.
   - inversion HS; subst. split; auto.
   - destruct (existsb (fun p => String.eqb (fst p) o) (started s)) eqn:E; [discriminate|].
-    inversion HS; subst. split; simpl; auto.
+    inversion HS; subst.
     assert (Hno : forall t0, ~ In (o, t0) (started s)).
     { intros t0 HI. assert (existsb (fun p : string * tid => String.eqb (fst p) o) (started s) = true).
       { apply existsb_exists. exists (o, t0). split; [assumption | apply String.eqb_refl]. }
       congruence. }
-    intros o0 t0 t0' [H1|H1] [H2|H2].
-    + inversion H1; inversion H2; subst; reflexivity.
-    + inversion H1; subst. exfalso. eapply Hno; eauto.
-    + inversion H2; subst. exfalso. eapply Hno; eauto.
-    + eapply W1; eauto.
-  - destruct (_ && _); [|discriminate]. inversion HS; subst. split; simpl; auto.
-    intros t0 o0 [H|H]; [inversion H; subst; left; reflexivity | right; eapply W2; eauto].
+    split; simpl; auto.
+    + intros o0 t0 t0' [H1|H1] [H2|H2].
+      * inversion H1; inversion H2; subst; reflexivity.
+      * inversion H1; subst. exfalso. eapply Hno; eauto.
+      * inversion H2; subst. exfalso. eapply Hno; eauto.
+      * eapply W1; eauto.
+    + intros o0 HI. destruct (W3 _ HI) as [t0 Ht0]. exists t0. right. assumption.
+  - destruct (memb so_eqb (o, t) (started s)) eqn:E1; simpl in HS; [|discriminate].
+    destruct (negb _); [|discriminate]. inversion HS; subst. split; simpl; auto.
+    + intros t0 o0 [H|H]; [inversion H; subst; left; reflexivity | right; eapply W2; eauto].
+    + intros o0 [H|H]; [subst; exists t; apply (memb_In _ so_eqb_eq); assumption | apply W3; assumption].
   - destruct (memb String.eqb o (finished s)) eqn:E; [|discriminate]. inversion HS; subst. split; simpl; auto.
     intros t0 o0 [H|H]; [inversion H; subst; apply (memb_In _ String.eqb_eq); assumption | eapply W2; eauto].
 Qed.
@@ -536,4 +541,211 @@ Proof.
       * apply (memb_In _ to_eqb_eq) in Ri. exfalso. apply F2.
         apply (proj1 (proj2 (st_mono tr i j (Nat.lt_le_incl _ _ Hij)))).
         eapply wf_completed; [apply st_wf | eassumption].
+Qed.
+
+(* ================================================================ from the static check to the traces *)
+(* the static context under-approximates what thread t really holds in state s *)
+Record sub_ctx (c : sctx) (s : tst) (t : tid) : Prop := mkSub {
+  sub_held : forall m l, In (m, l) (sc_held c) -> In (l, t, m) (held s);
+  sub_after : forall o, In o (sc_after c) -> In (t, o) (completed s);
+  sub_in : forall o, In o (sc_in c) -> In (o, t) (started s) /\ ~ In o (finished s)
+}.
+
+Lemma sat_write_dyn c s t p : sub_ctx c s t -> sat_write_s c p = true -> dsat_write s t p = true.
+Proof.
+  intros [H1 H2 H3]. destruct p as [l|o]; simpl; intros H.
+  - apply (memb_In _ ml_eqb_eq) in H. apply (memb_In _ hold_eqb_eq). auto.
+  - apply (memb_In _ String.eqb_eq) in H. destruct (H3 _ H) as [A B].
+    apply Bool.andb_true_iff. split; [apply (memb_In _ so_eqb_eq); assumption|].
+    apply (memb_false _ String.eqb_eq) in B. rewrite B. reflexivity.
+Qed.
+
+Lemma sat_read_dyn c s t p : sub_ctx c s t -> sat_read_s c p = true -> dsat_read s t p = true.
+Proof.
+  intros [H1 H2 H3]. destruct p as [l|o]; simpl; intros H; apply Bool.orb_true_iff in H; apply Bool.orb_true_iff.
+  - destruct H as [H|H]; apply (memb_In _ ml_eqb_eq) in H; [left | right]; apply (memb_In _ hold_eqb_eq); auto.
+  - destruct H as [H|H]; apply (memb_In _ String.eqb_eq) in H.
+    + left. destruct (H3 _ H) as [A B].
+      apply Bool.andb_true_iff. split; [apply (memb_In _ so_eqb_eq); assumption|].
+      apply (memb_false _ String.eqb_eq) in B. rewrite B. reflexivity.
+    + right. apply (memb_In _ to_eqb_eq). auto.
+Qed.
+
+Lemma write_ok_dyn ps c s t : sub_ctx c s t -> write_ok_s ps c = true -> dwrite_ok ps s t = true.
+Proof.
+  unfold write_ok_s, dwrite_ok. intros HS H. apply Bool.andb_true_iff in H. destruct H as [N A].
+  rewrite N. simpl. rewrite forallb_forall in *. intros p Hp. eapply sat_write_dyn; eauto.
+Qed.
+
+Lemma read_ok_dyn ps c s t : sub_ctx c s t -> read_ok_s ps c = true -> dread_ok ps s t = true.
+Proof.
+  unfold read_ok_s, dread_ok. intros HS H. apply Bool.orb_true_iff in H. apply Bool.orb_true_iff.
+  destruct H as [H|H]; [left; assumption | right].
+  apply existsb_exists in H. destruct H as [p [Hp Hs]]. apply existsb_exists. exists p. split; [assumption|].
+  eapply sat_read_dyn; eauto.
+Qed.
+
+(* what a thread's runtime state promises *)
+Definition rt_ok (D : discipline) (s : tst) (t : tid) (r : rthread) : Prop :=
+  exists c, sub_ctx c s t /\ sc_in c = [] /\
+    match r_cur r with
+    | None => check D c (r_rest r) = true
+    | Some (o, b) =>
+        In (o, t) (started s) /\ ~ In o (finished s) /\
+        check_body D (ctx_in c o) b = true /\ check D (ctx_after c o) (r_rest r) = true
+    end.
+
+Definition pool_ok (D : discipline) (s : tst) (pool : list rthread) : Prop :=
+  wf s /\ forall t r, nth_error pool t = Some r -> rt_ok D s t r.
+
+Lemma nth_replace_same {A} (l : list A) n x y :
+  nth_error l n = Some y -> nth_error (replace_nth n x l) n = Some x.
+Proof.
+  revert n. induction l as [|z l IH]; intros [|n] H; simpl in *; try discriminate; auto.
+Qed.
+
+Lemma nth_replace_other {A} (l : list A) n m x :
+  n <> m -> nth_error (replace_nth n x l) m = nth_error l m.
+Proof.
+  revert n m. induction l as [|z l IH]; intros [|n] [|m] H; simpl; auto; try congruence.
+Qed.
+
+(* a step of thread t leaves the holds, running bodies and completions of every other thread alone *)
+Lemma step_frame s t e s' t2 :
+  wf s -> step s (t, e) = Some s' -> t2 <> t ->
+  (forall l m, In (l, t2, m) (held s) -> In (l, t2, m) (held s')) /\
+  (forall o, In (o, t2) (started s) -> ~ In o (finished s) -> ~ In o (finished s')).
+Proof.
+  intros W HS Hne. destruct e; simpl in HS.
+  - destruct (can_acq _ _ _); [|discriminate]. inversion HS; subst; simpl. split; auto.
+  - destruct (remove1 (l, t, m) (held s)) as [h|] eqn:R; [|discriminate]. inversion HS; subst; simpl. split; auto.
+    intros l0 m0 HI. eapply remove1_other; eauto. intros E. inversion E. congruence.
+  - inversion HS; subst. split; auto.
+  - inversion HS; subst. split; auto.
+  - destruct (existsb _ _); [discriminate|]. inversion HS; subst; simpl. split; auto.
+  - destruct (memb so_eqb (o, t) (started s)) eqn:E1; simpl in HS; [|discriminate].
+    destruct (negb _); [|discriminate]. inversion HS; subst; simpl. split; auto.
+    intros o0 HI HN [H|H]; [|contradiction]. subst o0.
+    apply (memb_In _ so_eqb_eq) in E1. apply Hne. eapply (wf_starter _ W); eauto.
+  - destruct (memb _ _ _); [|discriminate]. inversion HS; subst; simpl. split; auto.
+Qed.
+
+Lemma sub_ctx_frame c s t e s' t2 :
+  wf s -> step s (t, e) = Some s' -> t2 <> t -> sub_ctx c s t2 -> sub_ctx c s' t2.
+Proof.
+  intros W HS Hne [H1 H2 H3]. destruct (step_frame _ _ _ _ _ W HS Hne) as [F1 F2].
+  destruct (step_mono _ _ _ HS) as [M1 [M2 M3]]. split.
+  - intros m l HI. apply F1. auto.
+  - intros o HI. apply M3. auto.
+  - intros o HI. destruct (H3 _ HI) as [A B]. split; [apply M1; assumption | apply F2; assumption].
+Qed.
+
+Lemma rt_ok_frame D s t e s' t2 r :
+  wf s -> step s (t, e) = Some s' -> t2 <> t -> rt_ok D s t2 r -> rt_ok D s' t2 r.
+Proof.
+  intros W HS Hne [c [HC [Hin HR]]]. exists c. split; [eapply sub_ctx_frame; eauto|]. split; [assumption|].
+  destruct (r_cur r) as [[o b]|]; [|assumption].
+  destruct HR as [A [B [C1 C2]]]. destruct (step_frame _ _ _ _ _ W HS Hne) as [F1 F2].
+  destruct (step_mono _ _ _ HS) as [M1 _]. repeat split; auto.
+Qed.
+
+(* one move of thread t: the access (if any) obeys the discipline dynamically, and the promise is kept *)
+Lemma rt_ok_step D s t r e r' s' :
+  wf s -> rt_ok D s t r -> In (e, r') (tnext r) -> step s (t, e) = Some s' ->
+  acc_ok D s (t, e) = true /\ rt_ok D s' t r'.
+Proof.
+  intros W [c [HC [Hin HR]]] HM HS. destruct HC as [H1 H2 H3].
+  destruct (step_mono _ _ _ HS) as [M1 [M2 M3]].
+  unfold tnext in HM. destruct r as [cur rest]; simpl in *. destruct cur as [[o b]|].
+  - destruct HR as [A [B [C1 C2]]]. destruct b as [|[w x] b].
+    + (* end of the body *)
+      destruct HM as [HM|[]]. inversion HM; subst; clear HM. split; [reflexivity|].
+      simpl in HS. destruct (memb so_eqb (o, t) (started s)) eqn:E1; simpl in HS; [|discriminate].
+      destruct (negb _); [|discriminate]. inversion HS; subst; simpl in *.
+      exists (ctx_after c o). split; [|split; [assumption | assumption]].
+      split; simpl; auto.
+      * intros o0 [<-|HI]; [left; reflexivity | right; auto].
+      * rewrite Hin. intros o0 [].
+    + (* an access inside the body *)
+      destruct HM as [HM|[]]. inversion HM; subst; clear HM.
+      assert (HSub : sub_ctx (ctx_in c o) s t).
+      { split; simpl; auto. rewrite Hin. intros o0 [<-|[]]. auto. }
+      simpl in C1. apply Bool.andb_true_iff in C1. destruct C1 as [C1 C1'].
+      assert (s' = s) by (destruct w; simpl in HS; inversion HS; reflexivity). subst s'.
+      split.
+      * destruct w; simpl in *; [eapply write_ok_dyn | eapply read_ok_dyn]; eauto.
+      * exists c. split; [split; auto|]. split; [assumption|]. simpl. auto.
+  - destruct rest as [|i rest]; [destruct HM|]. destruct i; simpl in HM.
+    + (* acquire *)
+      destruct HM as [HM|[]]. inversion HM; subst; clear HM. split; [reflexivity|].
+      simpl in HS. destruct (can_acq _ _ _); [|discriminate]. inversion HS; subst; simpl in *.
+      exists (ctx_acq c m l). split; [|split; [assumption | assumption]].
+      split; simpl; auto.
+      intros m0 l0 [E|HI]; [inversion E; subst; left; reflexivity | right; auto].
+    + (* release *)
+      destruct HM as [HM|[]]. inversion HM; subst; clear HM. split; [reflexivity|].
+      simpl in HS. destruct (remove1 (l, t, m) (held s)) as [h|] eqn:R; [|discriminate]. inversion HS; subst; simpl in *.
+      exists (ctx_rel c m l). split; [|split; [assumption | assumption]].
+      split; simpl; auto.
+      intros m0 l0 HI. apply filter_In in HI. destruct HI as [HI HF].
+      eapply remove1_other; eauto. intros E. inversion E; subst.
+      assert (ml_eqb (m, l) (m, l) = true) by (apply ml_eqb_eq; reflexivity).
+      rewrite H in HF. discriminate.
+    + (* read *)
+      destruct HM as [HM|[]]. inversion HM; subst; clear HM.
+      simpl in HR. apply Bool.andb_true_iff in HR. destruct HR as [R1 R2].
+      simpl in HS. inversion HS; subst. split.
+      * simpl. eapply read_ok_dyn; eauto. split; auto.
+      * exists c. split; [split; auto|]. split; assumption.
+    + (* write *)
+      destruct HM as [HM|[]]. inversion HM; subst; clear HM.
+      simpl in HR. apply Bool.andb_true_iff in HR. destruct HR as [R1 R2].
+      simpl in HS. inversion HS; subst. split.
+      * simpl. eapply write_ok_dyn; eauto. split; auto.
+      * exists c. split; [split; auto|]. split; assumption.
+    + (* once *)
+      simpl in HR. apply Bool.andb_true_iff in HR. destruct HR as [R1 R2].
+      destruct HM as [HM|[HM|[]]]; inversion HM; subst; clear HM; (split; [reflexivity|]); simpl in HS.
+      * (* this thread runs the body *)
+        destruct (existsb (fun p => String.eqb (fst p) o) (started s)) eqn:E; [discriminate|].
+        inversion HS; subst; simpl in *.
+        exists c. split; [split; simpl; auto|]. 
+        { intros o0 HI. destruct (H3 _ HI) as [A B]. split; [right; assumption | assumption]. }
+        split; [assumption|]. simpl. repeat split; auto.
+        intros HF. destruct (wf_finished _ W _ HF) as [t0 Ht0].
+        assert (existsb (fun p : string * tid => String.eqb (fst p) o) (started s) = true).
+        { apply existsb_exists. exists (o, t0). split; [assumption | apply String.eqb_refl]. }
+        congruence.
+      * (* the body had already finished *)
+        destruct (memb String.eqb o (finished s)) eqn:E; [|discriminate]. inversion HS; subst; simpl in *.
+        exists (ctx_after c o). split; [|split; [assumption | assumption]].
+        split; simpl; auto.
+        intros o0 [<-|HI]; [left; reflexivity | right; auto].
+Qed.
+
+Lemma exec_disc D pool s tr : exec pool s tr -> pool_ok D s pool -> disc_from D s tr.
+Proof.
+  induction 1 as [|pool s t r e r' s' tr Hn Hm Hs Hex IH]; intros [W HP]; simpl; [exact I|].
+  destruct (rt_ok_step D s t r e r' s' W (HP _ _ Hn) Hm Hs) as [Hacc Hrt].
+  split; [assumption|]. exists s'. split; [assumption|].
+  apply IH. split; [eapply step_wf; eauto|].
+  intros t2 r2 Hn2. destruct (Nat.eq_dec t t2) as [<-|Hne].
+  - rewrite (nth_replace_same _ _ _ _ Hn) in Hn2. inversion Hn2; subst. assumption.
+  - rewrite (nth_replace_other _ _ _ _ Hne) in Hn2. eapply rt_ok_frame; eauto.
+Qed.
+
+Lemma start_ok D P : (forall th, In th P -> thread_ok D th = true) -> pool_ok D tst0 (start P).
+Proof.
+  intros H. split; [apply wf0|]. intros t r Hn. unfold start in Hn.
+  apply nth_error_In in Hn. apply in_map_iff in Hn. destruct Hn as [th [<- Hin]].
+  exists ctx0. split; [split; simpl; intros; contradiction|]. split; [reflexivity|].
+  simpl. apply H. assumption.
+Qed.
+
+(* C16_discipline_sound: if the static lock/once discipline holds for every thread of a program
+   (any number of threads), no schedule of the program has a data race. *)
+Theorem discipline_sound D (P : list thread) tr :
+  (forall th, In th P -> thread_ok D th = true) -> schedule_of P tr -> ~ race tr.
+Proof.
+  intros HP HS. apply (discipline_sound_trace D). eapply exec_disc; eauto. apply start_ok. assumption.
 Qed.
